@@ -3,6 +3,7 @@
 #include "dvm_common.h"
 #include <Block.h>
 #include <sys/socket.h>
+extern dispatch_queue_t dispatch_workloop_create(const char *label);
 
 #define MAXQ 32
 #define MAXSRC 64
@@ -290,6 +291,7 @@ static int create_objects(void) {
 	for (int i = 0; i < MAXQ; i++) if (QD[i].used) {
 		char label[32]; snprintf(label, sizeof label, "dvs.q%d", i);
 		if (QD[i].kind == 2) { Q[i] = (dispatch_queue_t)dispatch_get_global_queue(0, 0); continue; }
+		if (QD[i].kind == 4) { Q[i] = dispatch_workloop_create(label); dispatch_queue_set_specific(Q[i], &TAGKEY, (void *)(long)(i + 1), NULL); continue; }     // sources may target a workloop
 		Q[i] = QD[i].target >= 0 ? dispatch_queue_create_with_target(label, QD[i].kind ? DISPATCH_QUEUE_CONCURRENT : NULL, Q[QD[i].target]) : dispatch_queue_create(label, QD[i].kind ? DISPATCH_QUEUE_CONCURRENT : NULL);
 		dispatch_queue_set_specific(Q[i], &TAGKEY, (void *)(long)(i + 1), NULL);
 	}
@@ -385,7 +387,7 @@ static void *coordinator(void *arg) {
 		logev(EV_VAL, i, 7, dispatch_source_testcancel(s->ds));
 		logev(EV_VAL, i, 8, atomic_load(&s->invocations));
 		if (s->fd_w >= 0) close(s->fd_w);
-		if (IS_FD(s->type) && !(s->flags & 1)) { /* no cancel handler: drain the queue before closing the monitored end */ dispatch_sync(Q[s->tq >= 0 ? s->tq : 0], ^{}); }
+		if (IS_FD(s->type) && !(s->flags & 1)) { /* no cancel handler: drain the queue before closing the monitored end */ int dq_ = s->tq >= 0 ? s->tq : 0; if (QD[dq_].kind == 4) dispatch_async_and_wait(Q[dq_], ^{}); else dispatch_sync(Q[dq_], ^{}); }
 		logev(EV_CALL, -700 - i, i, K_RELEASE); dispatch_release(s->ds); logev(EV_RET, -700 - i, i, 0);
 	}
 	// C17 part 2: every source that has a finalizer must get it run (a finalizer that never runs leaves the process idle here: stuck witness)
